@@ -143,6 +143,10 @@ def payloads(body, root_qname, canary_path):
     P.append(('binary', b'\x89PNG\r\n\x1a\n\x00\x00', 'reject'))
     P.append(('two-roots', body + body, 'reject'))
     P.append(('unclosed', body[:body.rindex('<')], 'reject'))
+    if '<ds:Reference URI="#' in body:
+        import re as _re
+        P.append(('signature-reference-file', _re.sub(r'<ds:Reference URI="#[^"]*"', '<ds:Reference URI="file://%s"' % canary_path, body, 1), 'noaccess'))
+        P.append(('signature-reference-http', _re.sub(r'<ds:Reference URI="#[^"]*"', '<ds:Reference URI="http://canary.invalid/ref"', body, 1), 'noaccess'))
     return P
 
 
@@ -241,6 +245,42 @@ def entry_points():
         return dict(m.items()) or None
     E.append(('InMemoryMetaData.parse', md_parse, mdx, 'md:EntityDescriptor'))
     E.append(('MetaDataFile.load', md_file, mdx, 'md:EntityDescriptor'))
+    # metadata whose signature is checked against a pinned certificate (file source and remote source of a store)
+    from vp import xmlsec as _model
+    node = 'urn:oasis:names:tc:SAML:2.0:metadata:EntityDescriptor'
+    signed_md = mdx.replace('<md:EntityDescriptor ', '<md:EntityDescriptor ID="MD1" ', 1).replace('>', '>' + forge.sig_template('MD1'), 1)
+    signed_md = _model.sign_xml(signed_md, 'MD1', world.priv('mdsigner'))
+    signer_sp = world.make_sp(TMP[0], want_response_signed=False)
+
+    def md_file_cert(d):
+        p = os.path.join(TMP[0], 'hostile-md-cert.xml')
+        with open(p, 'wb') as f:
+            f.write(d if isinstance(d, bytes) else d.encode('utf-8'))
+        m = MetaDataFile(ac_factory(), p, cert=world.crt('mdsigner'), security=signer_sp.sec, node_name=node)
+        ok = m.load()
+        return (dict(m.items()) or None) if ok is not False else None
+
+    class _Resp(object):
+        def __init__(self, body):
+            self.status_code = 200
+            self.content = body if isinstance(body, bytes) else body.encode('utf-8')
+            self.text = body
+
+    class _Http(object):
+        def __init__(self, body):
+            self.body = body
+
+        def send(self, url, *a, **k):
+            return _Resp(self.body)
+
+    def md_remote_cert(d):
+        from saml2_tophat.mdstore import MetadataStore
+        mds = MetadataStore(ac_factory(), signer_sp.config)
+        mds.http = _Http(d)
+        mds.load('remote', url='https://md.example/fed', cert=world.crt('mdsigner'), node_name=node)
+        return list(mds.keys()) or None
+    E.append(('MetaDataFile.load+cert', md_file_cert, signed_md, 'md:EntityDescriptor'))
+    E.append(('MetadataStore.load-remote+cert', md_remote_cert, signed_md, 'md:EntityDescriptor'))
     sp = world.make_sp(TMP[0], want_response_signed=False)
     idp = world.make_idp(TMP[0])
 
@@ -324,13 +364,52 @@ def evaluate(task):
         return out
     if kind == 'seam':
         return seam_items()
+    if kind == 'big':
+        # large metadata aggregates (padded to `size` bytes), damaged: never a partially populated store
+        _k, size, cut_name, how = task
+        from saml2_tophat.mdstore import InMemoryMetaData, MetaDataFile
+        from saml2_tophat.attribute_converter import ac_factory
+        pad = '<md:Extensions><p:Pad xmlns:p="urn:vp:pad">%s</p:Pad></md:Extensions>' % ('x' * 60000)
+        ents = []
+        i = 0
+        while sum(len(e) for e in ents) < size:
+            e = world.idp_md('urn:vp:big-%d' % i, extra=pad).replace(' xmlns:md="%s"' % world.MD, '', 1)
+            ents.append(e)
+            i += 1
+        body = '<md:EntitiesDescriptor xmlns:md="%s">%s</md:EntitiesDescriptor>' % (world.MD, ''.join(ents))
+        cuts = {'whole': len(body), 'quarter': len(body) // 4, 'half': len(body) // 2, 'after-an-entity': body.index('</md:EntityDescriptor>', len(body) // 2) + 22,
+                'inside-last-entity': len(body) - 3000, 'root-end-tag-missing': len(body) - len('</md:EntitiesDescriptor>'), 'last-byte-missing': len(body) - 1}
+        data = body[:cuts[cut_name]]
+        if cut_name == 'garbage-in-the-middle':
+            data = body
+        if how == 'parse':
+            def fn(d):
+                m = InMemoryMetaData(ac_factory())
+                m.parse(d)
+                return list(m.keys()) or None
+        else:
+            def fn(d):
+                p = os.path.join(TMP[0], 'big-%d-%s.xml' % (os.getpid(), cut_name))
+                with open(p, 'w', encoding='utf-8') as f:
+                    f.write(d)
+                m = MetaDataFile(ac_factory(), p)
+                m.load()
+                os.unlink(p)
+                return list(m.keys()) or None
+        o = observe(fn, data)
+        name = 'metadata-aggregate-%dMiB-%s' % (size >> 20, how)
+        if cut_name == 'whole':
+            return [(name, 'baseline', None if o['returned'] else 'valid-document-not-parsed:%s' % o['exc'])]
+        return [(name, 'truncated:' + cut_name, judge(o, 'reject'))]
 
 
 def judge(o, expect):
     if o['events']:
         return 'external-access:%s' % (o['events'][0],)
-    if o['external']:
-        return 'tool-asked-to-dereference:%s' % (o['external'][0],)
+    if any(x[0] == 'entity-declaration' for x in o['external']):
+        return 'entity-declaring-document-handed-to-the-tool:%s' % ([x for x in o['external'] if x[0] == 'entity-declaration'][0],)
+    if [x for x in o['external'] if x[0] != 'doctype']:
+        return 'tool-asked-to-dereference:%s' % ([x for x in o['external'] if x[0] != 'doctype'][0],)
     if o['leak']:
         return 'entity-or-file-content-in-result'
     if expect == 'reject' and o['returned']:
@@ -372,6 +451,9 @@ def seam_items():
     return out
 
 
+BIG_CUTS = ('whole', 'quarter', 'half', 'after-an-entity', 'inside-last-entity', 'root-end-tag-missing', 'last-byte-missing')
+
+
 def run(ctx):
     TMP[0] = ctx.tmp
     files, root = pkg_files()
@@ -392,6 +474,10 @@ def run(ctx):
     cl = sorted(schema.cname(c) for c in schema.discover())
     tasks += [('classes', cl[i:i + 40]) for i in range(0, len(cl), 40)]
     tasks.append(('seam',))
+    for size in ((3 << 20,) if not ctx.thorough else (1 << 20, 3 << 20, 12 << 20)):
+        for cut in BIG_CUTS:
+            for how in ('parse', 'file'):
+                tasks.append(('big', size, cut, how))
     res = ctx.pmap(evaluate, tasks, chunksize=1)
     n = 0
     nontriv = set()
@@ -412,7 +498,7 @@ def run(ctx):
             'evaluations': n + len(sites), 'distinct_nontrivial': len(nontriv), 'exhaustive': True,
             'static_modules': len(files), 'static_parser_call_sites': len(sites), 'static_defused_sites': n_def,
             'entry_points': names, 'schema_from_string_functions': len(cl),
-            'rule': '(a) ast walk over every module of the package: every reference that can turn text into an XML tree (fromstring/XML/parse/iterparse/XMLParser/parseString/ParserCreate/..., resolved through import aliases; any use of xml.dom, xml.sax, expat, lxml) must resolve to defusedxml; stdlib ElementTree only for building/serialising. (b) %d public parse entry points x 23 hostile payloads (entities internal/external/parameter, external DTD, billion laughs, XInclude, stylesheet PI, schemaLocation, UTF-16 LE/BE with and without BOM, UTF-7, leading whitespace, NUL, non-XML) x %s of a valid message; every registered *_from_string of every schema class x 11 payloads; tool-seam items (external Reference URI, RetrievalMethod, KeyName, CipherReference, DOCTYPE) through the real SP; oracle: audit hook (open/socket/urllib/subprocess) + canary strings + result must be exception/None for hostile and malformed input' % (len(names), 'every byte prefix' if ctx.thorough else 'every structural-boundary prefix'),
+            'rule': '(a) ast walk over every module of the package: every reference that can turn text into an XML tree (fromstring/XML/parse/iterparse/XMLParser/parseString/ParserCreate/..., resolved through import aliases; any use of xml.dom, xml.sax, expat, lxml) must resolve to defusedxml; stdlib ElementTree only for building/serialising. (b) %d public parse entry points x 23 hostile payloads (entities internal/external/parameter, external DTD, billion laughs, XInclude, stylesheet PI, schemaLocation, UTF-16 LE/BE with and without BOM, UTF-7, leading whitespace, NUL, non-XML) x %s of a valid message; every registered *_from_string of every schema class x 11 payloads; metadata with a pinned signer certificate (file source and remote source of a store) incl. an external URI in the metadata signature Reference; 3 MiB metadata aggregates (thorough: 1, 3, 12 MiB) truncated at 6 places; tool-seam items (external Reference URI, RetrievalMethod, KeyName, CipherReference, DOCTYPE) through the real SP; oracle: audit hook (open/socket/urllib/subprocess) + canary strings + result must be exception/None for hostile and malformed input' % (len(names), 'every byte prefix' if ctx.thorough else 'every structural-boundary prefix'),
             'samples': [{'static_sites': [list(s) for s in sites[:4]]}, {'entry': names[0]}],
         },
         'assumptions': ['static inventory resolves import aliases but has no data flow', 'audit hook whitelist: temp dir, package dir, interpreter/site-packages, keys',
@@ -429,7 +515,10 @@ def replay(ctx, w):
                 return {'violation': any(v != 'defused' and full == w['call'] for _l, full, v in inventory_file(f))}
     if w['entry'] == 'xmlsec1-seam':
         return {'violation': any(why for _n, p, why in seam_items() if p == w['payload'])}
-    if w['entry'] in eps():
+    if w['entry'].startswith('metadata-aggregate-'):
+        _m, _a, size, how = w['entry'].rsplit('-', 3)[0], None, int(w['entry'].split('-')[2][:-3]) << 20, w['entry'].rsplit('-', 1)[1]
+        outs = evaluate(('big', size, w['payload'].split(':', 1)[1] if ':' in w['payload'] else 'whole', how))
+    elif w['entry'] in eps():
         outs = evaluate(('ep', w['entry'], True))
     else:
         outs = evaluate(('classes', [w['entry']]))
